@@ -20,6 +20,7 @@ import ElfioVerif.Model.Symbols
 import ElfioVerif.Model.Reloc
 import ElfioVerif.Model.Arrange
 import ElfioVerif.Model.Versym
+import ElfioVerif.Model.Dynamic
 import ElfioVerif.Model.Load
 import ElfioVerif.Gen.SitesC18
 namespace ElfioVerif
@@ -92,7 +93,7 @@ def relGetResolvedWith (guard : Bool → Bool) (enc : Enc) (b : SecBuf) (symtab 
   match relGet enc b index with
   | .error f => .error f
   | .ok r =>
-    let e : Reloc.Entry := r.getD { offset := 0, symbol := 0, type := 0, addend := 0 }
+    let e : Reloc.Entry := r.getD { offset := 0, symbol := tq_reloc_symbol_init, type := 0, addend := 0 }
     match symtab with
     | none =>
       if guard true then pure { ret := false, offset := e.offset, type := e.type, addend := e.addend }
@@ -100,12 +101,13 @@ def relGetResolvedWith (guard : Bool → Bool) (enc : Enc) (b : SecBuf) (symtab 
     | some t =>
       if r.isNone then pure { ret := false }       -- `ret && …` : get_symbol is not called
       else
-        match t.getSymbol (e.symbol.setWidth 64) [] {} with
+        match t.getSymbol (tq_reloc_sym_index e.symbol) [] {} with
         | .error f => .error f
         | .ok g =>
-          pure { ret := g.1, offset := e.offset, symValue := g.2.2.value, symName := g.2.1, type := e.type,
+          let ret := tq_reloc_ret_and true g.1      -- `ret = ret && symbols.get_symbol( … )`, `ret` was true
+          pure { ret := ret, offset := e.offset, symValue := g.2.2.value, symName := g.2.1, type := e.type,
                  addend := e.addend,
-                 calcValue := if g.1 then relCalc e.type g.2.2.value e.addend e.offset else 0 }
+                 calcValue := if tq_reloc_calc_gate ret then relCalc e.type g.2.2.value e.addend e.offset else 0 }
 
 def relGetResolved := relGetResolvedWith tq_reloc_nosymtab
 
@@ -146,13 +148,15 @@ def swapLoop (enc : Enc) (first second : BitVec 64) : Nat → SecBuf → BitVec 
       if !(reloc_swap_loop_cond i n) then pure b else
       match swapBody enc first second b i cur with
       | .error f => .error f
-      | .ok (b1, cur1) => swapLoop enc first second fuel b1 (i + 1) cur1
+      | .ok (b1, cur1) => swapLoop enc first second fuel b1 (reloc_swap_i_incr i) cur1
 
 /-- `swap_symbols(first, second)` : nothing to do without data (fixes/20); with data the entry count
     is at most the section size, and the fuel suffices whenever that is below 2^32 -/
 def swapSymbols (enc : Enc) (b : SecBuf) (first second : BitVec 64) : M SecBuf :=
   if tq_swap_nodata (secData b).isNone then pure b else
-  swapLoop enc first second ((Reloc.entriesNumV b).toNat + 1) b 0 { offset := 0, symbol := 0, type := 0, addend := 0 }
+  swapLoop enc first second ((Reloc.entriesNumV b).toNat + 1) b reloc_swap_i_init
+    { offset := reloc_swap_init_offset, symbol := reloc_swap_init_symbol, type := reloc_swap_init_rtype,
+      addend := reloc_swap_init_addend }
 
 /-- the callback `[&](first, second){ for (r : rels) relocation_section_accessor(elf, r).swap_symbols(first, second); }` -/
 def swapAll (enc : Enc) : List SecBuf → BitVec 64 → BitVec 64 → M (List SecBuf)
@@ -168,7 +172,7 @@ def swapAll (enc : Enc) : List SecBuf → BitVec 64 → BitVec 64 → M (List Se
 /-- `arrange_local_symbols(func)` : without symbol data nothing is arranged (fixes/14) -/
 def arrange {σ : Type} (cb : σ → BitVec 64 → BitVec 64 → M σ) (s : SecBuf) (st : σ) :
     M (SecBuf × σ × BitVec 64) :=
-  if tq_arrange_nodata (secData s).isNone then pure (s, st, 0) else Arrange.arrange cb s st
+  if tq_arrange_nodata (secData s).isNone then pure (s, st, tq_arrange_nodata_ret) else Arrange.arrange cb s st
 
 /-! ### symbol lookup by name: the hash walks after fixes/11, 12, 13 -/
 
@@ -183,9 +187,9 @@ def sysvLoop (t : SymTab) (data : Option Bytes) (name : Bytes) (nbucket nchain :
         match SymTab.rd32 "hash_lookup/chain" t.cfg.enc data (sysv_chain_off nbucket y).toNat with
         | .error f => .error f
         | .ok y' =>
-          match t.getSymbol (y'.setWidth 64) str a with
+          match t.getSymbol (sysv_sym_index_walk y') str a with
           | .error f => .error f
-          | .ok r => sysvLoop t data name nbucket nchain k y' (steps + 1) r.2.1 r.2.2
+          | .ok r => sysvLoop t data name nbucket nchain k y' (tq_sysv_step_incr steps) r.2.1 r.2.2
     else pure (str, a)
 
 /-- `hash_lookup` : header guard, table-fits guard (fixes/11), step bound (fixes/12; `nchain + 1`
@@ -193,7 +197,7 @@ def sysvLoop (t : SymTab) (data : Option Bytes) (name : Bytes) (nbucket nchain :
 def hashLookup (t : SymTab) (h : SecBuf) (name : Bytes) (a : Attrs) : M (Bool × Attrs) :=
   let data := secData h
   if tq_sysv_hdr_bad data.isNone h.size then pure (false, a) else
-  match SymTab.rd32 "hash_lookup/nbucket" t.cfg.enc data 0 with
+  match SymTab.rd32 "hash_lookup/nbucket" t.cfg.enc data sysv_nbucket_off.toNat with
   | .error f => .error f
   | .ok nbucket =>
     match SymTab.rd32 "hash_lookup/nchain" t.cfg.enc data sysv_nchain_off.toNat with
@@ -204,90 +208,105 @@ def hashLookup (t : SymTab) (h : SecBuf) (name : Bytes) (a : Attrs) : M (Bool ×
       match SymTab.rd32 "hash_lookup/bucket" t.cfg.enc data (sysv_bucket_off val nbucket).toNat with
       | .error f => .error f
       | .ok y =>
-        match t.getSymbol (y.setWidth 64) [] a with
+        match t.getSymbol (sysv_sym_index y) [] a with
         | .error f => .error f
         | .ok r =>
-          if !r.1 then pure (false, a) else
-          match sysvLoop t data name nbucket nchain (nchain.toNat + 1) y 0 r.2.1 r.2.2 with
+          if sysv_head_missing r.1 then pure (false, a) else
+          match sysvLoop t data name nbucket nchain (nchain.toNat + 1) y tq_sysv_step_init r.2.1 r.2.2 with
           | .error f => .error f
           | .ok st => pure (st.1 == name, st.2)
 
 /-- the `while (true)` loop of `gnu_hash_lookup` with the end-of-section test of fixes/13 -/
-def gnuLoop (t : SymTab) (data : Option Bytes) (name : Bytes) (hash symoffset : BitVec 32)
+def gnuLoopT (is32 : Bool) (t : SymTab) (data : Option Bytes) (name : Bytes) (hash symoffset : BitVec 32)
     (chainsBase : Nat) (nchains : BitVec 64) : Nat → BitVec 32 → BitVec 32 → Bytes → Attrs → M (Bool × Attrs)
   | 0, _, _, _, _ => throw (.fuel "gnu_hash_lookup")
   | k + 1, ci, ch, sn, a =>
-    let hm := if t.c32 then gnu32_hash_match ch hash else gnu64_hash_match ch hash
-    match (if hm then t.getSymbol (if t.c32 then gnu32_sym_index ci symoffset else gnu64_sym_index ci symoffset) sn a
+    if !(if is32 then gnu32_loop_forever else gnu64_loop_forever) then pure (false, a) else
+    let hm := if is32 then gnu32_hash_match ch hash else gnu64_hash_match ch hash
+    match (if hm then t.getSymbol (if is32 then gnu32_sym_index ci symoffset else gnu64_sym_index ci symoffset) sn a
            else pure (false, sn, a)) with
     | .error f => .error f
     | .ok r =>
-      if hm && r.1 && (name == r.2.1) then pure (true, r.2.2) else
-      if (if t.c32 then gnu32_chain_end ch else gnu64_chain_end ch) then pure (false, r.2.2) else
-      let ci' := ci + 1
-      if (if t.c32 then tq_gnu32_next_oob ci' nchains else tq_gnu64_next_oob ci' nchains) then pure (false, r.2.2) else
-      match SymTab.rd32 "gnu_hash_lookup/chain" t.cfg.enc data (chainsBase + ci'.toNat * 4) with
+      if (if is32 then gnu32_name_match_gate ch hash r.1 (name == r.2.1)
+          else gnu64_name_match_gate ch hash r.1 (name == r.2.1)) then pure (true, r.2.2) else
+      if (if is32 then gnu32_chain_end ch else gnu64_chain_end ch) then pure (false, r.2.2) else
+      let ci' := if is32 then gnu32_chain_next ci else gnu64_chain_next ci
+      if (if is32 then tq_gnu32_next_oob ci' nchains else tq_gnu64_next_oob ci' nchains) then pure (false, r.2.2) else
+      match SymTab.rd32 "gnu_hash_lookup/chain" t.cfg.enc data
+          (chainsBase + (if is32 then gnu32_chain_elem_off_walk ci' else gnu64_chain_elem_off_walk ci').toNat) with
       | .error f => .error f
-      | .ok ch' => gnuLoop t data name hash symoffset chainsBase nchains k ci' ch' r.2.1 r.2.2
+      | .ok ch' => gnuLoopT is32 t data name hash symoffset chainsBase nchains k ci' ch' r.2.1 r.2.2
 
 /-- `gnu_hash_lookup<T>` after fixes/13: header guard; zero counts, shift and table-fits guard; the chain
     may neither start nor continue behind the section (`nchains` entries fit) -/
-def gnuLookup (t : SymTab) (h : SecBuf) (name : Bytes) (a : Attrs) : M (Bool × Attrs) :=
+def gnuLookupT (is32 : Bool) (t : SymTab) (h : SecBuf) (name : Bytes) (a : Attrs) : M (Bool × Attrs) :=
   let data := secData h
   let e := t.cfg.enc
-  if (if t.c32 then tq_gnu32_hdr_bad data.isNone h.size else tq_gnu64_hdr_bad data.isNone h.size) then pure (false, a) else
-  match SymTab.rd32 "gnu_hash_lookup/nbuckets" e data 0 with
+  if (if is32 then tq_gnu32_hdr_bad data.isNone h.size else tq_gnu64_hdr_bad data.isNone h.size) then pure (false, a) else
+  match SymTab.rd32 "gnu_hash_lookup/nbuckets" e data (if is32 then gnu32_nbuckets_off else gnu64_nbuckets_off).toNat with
   | .error f => .error f
   | .ok nbuckets =>
-  match SymTab.rd32 "gnu_hash_lookup/symoffset" e data 4 with
+  match SymTab.rd32 "gnu_hash_lookup/symoffset" e data (if is32 then gnu32_symoffset_off else gnu64_symoffset_off).toNat with
   | .error f => .error f
   | .ok symoffset =>
-  match SymTab.rd32 "gnu_hash_lookup/bloom_size" e data 8 with
+  match SymTab.rd32 "gnu_hash_lookup/bloom_size" e data (if is32 then gnu32_bloom_size_off else gnu64_bloom_size_off).toNat with
   | .error f => .error f
   | .ok bloomSize =>
-  match SymTab.rd32 "gnu_hash_lookup/bloom_shift" e data 12 with
+  match SymTab.rd32 "gnu_hash_lookup/bloom_shift" e data (if is32 then gnu32_bloom_shift_off else gnu64_bloom_shift_off).toNat with
   | .error f => .error f
   | .ok bloomShift =>
-    if (if t.c32 then tq_gnu32_fit_bad nbuckets bloomSize bloomShift h.size
+    if (if is32 then tq_gnu32_fit_bad nbuckets bloomSize bloomShift h.size
         else tq_gnu64_fit_bad nbuckets bloomSize bloomShift h.size) then pure (false, a) else
-    let nchains := if t.c32 then tq_gnu32_nchains h.size bloomSize nbuckets else tq_gnu64_nchains h.size bloomSize nbuckets
+    let nchains := if is32 then tq_gnu32_nchains h.size bloomSize nbuckets else tq_gnu64_nchains h.size bloomSize nbuckets
     let hash := elf_gnu_hash (SymTab.cName name)
-    let bloomBase := (if t.c32 then gnu32_bloom_off else gnu64_bloom_off).toNat
-    match (if t.c32 then
-             match SymTab.rd32 "gnu_hash_lookup/bloom" e data (bloomBase + (gnu32_bloom_index hash bloomSize).toNat * 4) with
+    let bloomBase := (if is32 then gnu32_bloom_off else gnu64_bloom_off).toNat
+    match (if is32 then
+             match SymTab.rd32 "gnu_hash_lookup/bloom" e data
+                 (bloomBase + (gnu32_bloom_elem_off (gnu32_bloom_index hash bloomSize)).toNat) with
              | .error f => .error f
-             | .ok w => let bits := gnu32_bloom_bits hash bloomShift; pure ((w &&& bits) == bits)
+             | .ok w => let bits := gnu32_bloom_bits hash bloomShift; pure (!(gnu32_bloom_miss w bits))
            else
-             match SymTab.rd64 "gnu_hash_lookup/bloom" e data (bloomBase + (gnu64_bloom_index hash bloomSize).toNat * 8) with
+             match SymTab.rd64 "gnu_hash_lookup/bloom" e data
+                 (bloomBase + (gnu64_bloom_elem_off (gnu64_bloom_index hash bloomSize)).toNat) with
              | .error f => .error f
-             | .ok w => let bits := gnu64_bloom_bits hash bloomShift; pure ((w &&& bits) == bits) : M Bool) with
+             | .ok w => let bits := gnu64_bloom_bits hash bloomShift; pure (!(gnu64_bloom_miss w bits)) : M Bool) with
     | .error f => .error f
     | .ok pass =>
       if !pass then pure (false, a) else
-      let bucket := if t.c32 then gnu32_bucket hash nbuckets else gnu64_bucket hash nbuckets
-      let bucketsBase := bloomBase + (if t.c32 then gnu32_buckets_off bloomSize else gnu64_buckets_off bloomSize).toNat
-      let chainsBase := bucketsBase + (if t.c32 then gnu32_chains_off nbuckets else gnu64_chains_off nbuckets).toNat
-      match SymTab.rd32 "gnu_hash_lookup/bucket" e data (bucketsBase + bucket.toNat * 4) with
+      let bucket := if is32 then gnu32_bucket hash nbuckets else gnu64_bucket hash nbuckets
+      let bucketsBase := bloomBase + (if is32 then gnu32_buckets_off bloomSize else gnu64_buckets_off bloomSize).toNat
+      let chainsBase := bucketsBase + (if is32 then gnu32_chains_off nbuckets else gnu64_chains_off nbuckets).toNat
+      match SymTab.rd32 "gnu_hash_lookup/bucket" e data
+          (bucketsBase + (if is32 then gnu32_bucket_elem_off bucket else gnu64_bucket_elem_off bucket).toNat) with
       | .error f => .error f
       | .ok bv =>
-        if BitVec.ule symoffset bv then
-          let ci := bv - symoffset
-          if (if t.c32 then tq_gnu32_start_oob ci nchains else tq_gnu64_start_oob ci nchains) then pure (false, a) else
-          match SymTab.rd32 "gnu_hash_lookup/chain" e data (chainsBase + ci.toNat * 4) with
+        if (if is32 then gnu32_bucket_ok bv symoffset else gnu64_bucket_ok bv symoffset) then
+          let ci := if is32 then gnu32_chain_start bv symoffset else gnu64_chain_start bv symoffset
+          if (if is32 then tq_gnu32_start_oob ci nchains else tq_gnu64_start_oob ci nchains) then pure (false, a) else
+          match SymTab.rd32 "gnu_hash_lookup/chain" e data
+              (chainsBase + (if is32 then gnu32_chain_elem_off ci else gnu64_chain_elem_off ci).toNat) with
           | .error f => .error f
-          | .ok ch => gnuLoop t data name hash symoffset chainsBase nchains (nchains.toNat + 1) ci ch [] a
+          | .ok ch => gnuLoopT is32 t data name hash symoffset chainsBase nchains (nchains.toNat + 1) ci ch [] a
         else pure (false, a)
+
+/-- the walk / `gnu_hash_lookup<T>` for the `T` of the file's class -/
+def gnuLoop (t : SymTab) (data : Option Bytes) (name : Bytes) (hash symoffset : BitVec 32)
+    (chainsBase : Nat) (nchains : BitVec 64) (fuel : Nat) (ci ch : BitVec 32) (sn : Bytes) (a : Attrs) : M (Bool × Attrs) :=
+  gnuLoopT t.c32 t data name hash symoffset chainsBase nchains fuel ci ch sn a
+
+def gnuLookup (t : SymTab) (h : SecBuf) (name : Bytes) (a : Attrs) : M (Bool × Attrs) :=
+  gnuLookupT t.c32 t h name a
 
 /-- the hash phase of `get_symbol(name, …)` -/
 def hashPhase (t : SymTab) (name : Bytes) (a : Attrs) : M (Bool × Attrs) :=
   match t.hash with
   | none => pure (false, a)
   | some h =>
-    match (if h.stype == BitVec.ofNat 32 SHT_HASH then hashLookup t h name a else pure (false, a)) with
+    match (if tq_sym_hash_is_sysv h.stype then hashLookup t h name a else pure (false, a)) with
     | .error f => .error f
     | .ok r1 =>
-      if h.stype == BitVec.ofNat 32 SHT_GNU_HASH || h.stype == BitVec.ofNat 32 DT_GNU_HASH then
-        gnuLookup t h name r1.2
+      if tq_sym_hash_is_gnu h.stype then
+        gnuLookupT (tq_sym_gnu_is32 (SymTab.clsByte t.cfg.cls)) t h name r1.2
       else pure r1
 
 /-- `get_symbol(name, value, size, bind, type, section_index, other)` -/
@@ -295,10 +314,11 @@ def getByName (t : SymTab) (name : Bytes) (a : Attrs) : M (Bool × Attrs) :=
   match hashPhase t name a with
   | .error f => .error f
   | .ok r =>
-    if r.1 then pure r else
-    match t.symbolsNum with
-    | .error f => .error f
-    | .ok n => SymTab.linearGo t name n.toNat 0 r.2
+    if tq_sym_linear_needed r.1 then
+      match t.symbolsNum with
+      | .error f => .error f
+      | .ok n => SymTab.linearGo t name n.toNat sym_byname_i_init r.2
+    else pure r
 
 /-- `get_symbol(value, name, size, bind, type, section_index, other)` : unchanged by the fixes -/
 def getByValue (t : SymTab) (value : BitVec 64) (str : Bytes) (a : Attrs) : M (Bool × Bytes × Attrs) :=
@@ -341,7 +361,7 @@ def needLoop (e : Enc) (data : Option Bytes) (size : BitVec 64) (no : BitVec 32)
         match rd32 "verneed/vn_aux" data (vn' + Elfxx_Verneed.vn_aux_off) with
         | .error er => .error er
         | .ok ax =>
-          needLoop e data size no f (i + 1)
+          needLoop e data size no f (vr_i_incr i)
             (tq_vr_pos_incr pos next, vn', vn' + (vr_aux_off1 (cv32 e) (verneed_vn_aux := ax)).toNat)
     else pure (some (pos, vn, va))
 
@@ -354,7 +374,7 @@ def needGet (e : Enc) (b : SecBuf) (str : Option SecBuf) (num no : BitVec 32) : 
   match rd32 "verneed/vn_aux" data Elfxx_Verneed.vn_aux_off with
   | .error er => .error er
   | .ok ax0 =>
-    match needLoop e data b.size no (no.toNat + 1) 0 (0, 0, (vr_aux_off0 (cv32 e) (verneed_vn_aux := ax0)).toNat) with
+    match needLoop e data b.size no (no.toNat + 1) vr_i_init (tq_vr_pos_init, 0, (vr_aux_off0 (cv32 e) (verneed_vn_aux := ax0)).toNat) with
     | .error er => .error er
     | .ok none => pure none
     | .ok (some (pos, vn, va)) =>
@@ -368,8 +388,12 @@ def needGet (e : Enc) (b : SecBuf) (str : Option SecBuf) (num no : BitVec 32) : 
           match rd32 "verneed/vna_name" data (va + Elfxx_Vernaux.vna_name_off) with
           | .error er => .error er
           | .ok nidx =>
-            match strLookup str (vr_file_idx (cv32 e) (verneed_vn_file := fidx)),
-                  strLookup str (vr_name_idx (cv32 e) (veraux_vna_name := nidx)) with
+            let fileP := strLookup str (vr_file_idx (cv32 e) (verneed_vn_file := fidx))
+            let depP := strLookup str (vr_name_idx (cv32 e) (veraux_vna_name := nidx))
+            -- a name is not inside the string table
+            if tq_vr_names_bad fileP.isNone depP.isNone then pure none else
+            -- `file_name = file; dep_name = dep;` : assigning a null pointer to a std::string is a fault
+            match fileP, depP with
             | some file, some name =>
               match rd16 "verneed/vn_version" data (vn + Elfxx_Verneed.vn_version_off) with
               | .error er => .error er
@@ -387,7 +411,7 @@ def needGet (e : Enc) (b : SecBuf) (str : Option SecBuf) (num no : BitVec 32) : 
                                    hash := vr_hash (cv32 e) (veraux_vna_hash := hash),
                                    flags := vr_flags (cv16 e) (veraux_vna_flags := flags),
                                    other := vr_other (cv16 e) (veraux_vna_other := other), name })
-            | _, _ => pure none      -- a name is not inside the string table
+            | _, _ => throw (.nullDeref "verneed/file_name = file; dep_name = dep")
 
 /-- the loop of `versym_d_section_accessor::get_entry` -/
 def defLoop (e : Enc) (data : Option Bytes) (size : BitVec 64) (no : BitVec 32) :
@@ -404,7 +428,7 @@ def defLoop (e : Enc) (data : Option Bytes) (size : BitVec 64) (no : BitVec 32) 
         match rd32 "verdef/vd_aux" data (vd' + Elfxx_Verdef.vd_aux_off) with
         | .error er => .error er
         | .ok ax =>
-          defLoop e data size no f (i + 1)
+          defLoop e data size no f (vd_i_incr i)
             (tq_vd_pos_incr pos next, vd', vd' + (vd_aux_off1 (cv32 e) (verdef_vd_aux := ax)).toNat)
     else pure (some (pos, vd, va))
 
@@ -416,7 +440,7 @@ def defGet (e : Enc) (b : SecBuf) (str : Option SecBuf) (num no : BitVec 32) : M
   match rd32 "verdef/vd_aux" data Elfxx_Verdef.vd_aux_off with
   | .error er => .error er
   | .ok ax0 =>
-    match defLoop e data b.size no (no.toNat + 1) 0 (0, 0, (vd_aux_off0 (cv32 e) (verdef_vd_aux := ax0)).toNat) with
+    match defLoop e data b.size no (no.toNat + 1) vd_i_init (tq_vd_pos_init, 0, (vd_aux_off0 (cv32 e) (verdef_vd_aux := ax0)).toNat) with
     | .error er => .error er
     | .ok none => pure none
     | .ok (some (pos, vd, va)) =>
@@ -427,8 +451,12 @@ def defGet (e : Enc) (b : SecBuf) (str : Option SecBuf) (num no : BitVec 32) : M
         match rd32 "verdef/vda_name" data (va + Elfxx_Verdaux.vda_name_off) with
         | .error er => .error er
         | .ok nidx =>
-          match strLookup str (vd_name_idx (cv32 e) (verdaux_vda_name := nidx)) with
-          | none => pure none
+          let depP := strLookup str (vd_name_idx (cv32 e) (verdaux_vda_name := nidx))
+          -- the name is not inside the string table
+          if tq_vd_names_bad depP.isNone then pure none else
+          -- `dep_name = dep;` : assigning a null pointer to a std::string is a fault
+          match depP with
+          | none => throw (.nullDeref "verdef/dep_name = dep")
           | some name =>
             match rd16 "verdef/vd_flags" data (vd + Elfxx_Verdef.vd_flags_off) with
             | .error er => .error er
@@ -442,6 +470,44 @@ def defGet (e : Enc) (b : SecBuf) (str : Option SecBuf) (num no : BitVec 32) : M
                   pure (some { flags := vd_flags (cv16 e) (verdef_vd_flags := flags),
                                ndx := vd_ndx (cv16 e) (verdef_vd_ndx := ndx),
                                hash := vd_hash (cv32 e) (verdef_vd_hash := hash), name })
+
+/-! ### the constructors of the version requirement / definition accessors (entry count from `.dynamic`) -/
+
+/-- the `for ( Elf_Xword i = 0; i < dyn_sec_num; ++i )` loop of the two constructors: the (truncated) value of
+    the first entry `get_entry` delivers with the wanted tag, 0 (the member initialiser) without one.  Loop
+    condition, the `get_entry(…) && tag == DT_VER*NUM` test, the increment and the `(Elf_Word)value`
+    conversion are the generated expressions handed in. -/
+def verCountGo (loopc : BitVec 64 → BitVec 64 → Bool) (hit : Bool → BitVec 64 → Bool)
+    (incr : BitVec 64 → BitVec 64) (trunc : BitVec 64 → BitVec 32) (n : BitVec 64) :
+    Nat → DynAcc → BitVec 64 → M (BitVec 32)
+  | 0, _, _ => pure 0
+  | fuel + 1, a, i =>
+    if loopc i n then
+      match a.getEntry i with
+      | .error f => .error f
+      | .ok (a', r) =>
+        -- `tag` is only read when `get_entry` returned true
+        let got : Bool × BitVec 64 × BitVec 64 := match r with
+          | .ok t v _ => (true, t, v)
+          | _ => (false, 0, 0)
+        if hit got.1 got.2.1 then pure (trunc got.2.2) else verCountGo loopc hit incr trunc n fuel a' (incr i)
+    else pure 0
+
+/-- `versym_r_section_accessor( elf, sec )` / `versym_d_section_accessor( elf, sec )` : the cached `entries_num`.
+    `dyn` = the dynamic accessor the constructor builds on `elf_file.sections[".dynamic"]` (`none`: no such
+    section, a null pointer) -/
+def verCount (need : Bool) (dyn : Option DynAcc) : M (BitVec 32) :=
+  if (if need then vr_ctor_nodyn dyn.isNone else vd_ctor_nodyn dyn.isNone) then pure 0 else
+  match dyn with
+  | none => pure 0
+  | some a0 =>
+    match a0.entriesNum with
+    | .error f => .error f
+    | .ok (a1, n) =>
+      if need then
+        verCountGo vr_ctor_loop vr_ctor_hit vr_ctor_i_incr vr_num_trunc (vr_ctor_count n) n.toNat a1 vr_ctor_i_init
+      else
+        verCountGo vd_ctor_loop vd_ctor_hit vd_ctor_i_incr vd_num_trunc (vd_ctor_count n) n.toNat a1 vd_ctor_i_init
 
 /-! ### the queries on a loaded object
 
@@ -462,19 +528,19 @@ def settleOpt (o : Obj) (i : Nat) : Obj × Option SecBuf :=
   | none => (o, none)
   | some (o', s) => (o', some s)
 
-def isHashTy (t : BitVec 32) : Bool :=
-  t == BitVec.ofNat 32 SHT_HASH || t == BitVec.ofNat 32 SHT_GNU_HASH || t == BitVec.ofNat 32 DT_GNU_HASH
-
-/-- the loop of `find_hash_section()` over `sections[j], j < nSecNo` -/
-def findHashGo (idx n : Nat) : List SecBuf → Nat → Nat
+/-- the loop of `find_hash_section()` over `sections[j], j < nSecNo` (`Elf_Half` counters; the loop
+    condition and the link / type test are the generated expressions) -/
+def findHashGo (idx n : BitVec 16) : List SecBuf → Nat → Nat
   | [], _ => 0
   | s :: rest, j =>
-    if j ≥ n then 0
-    else if s.link.toNat == idx % 65536 && isHashTy s.stype then j else findHashGo idx n rest (j + 1)
+    if !(tq_findhash_loop (BitVec.ofNat 16 j) n) then 0
+    else if tq_findhash_match s.link idx s.stype then (tq_findhash_index (BitVec.ofNat 16 j)).toNat
+    else findHashGo idx n rest (j + 1)
 
 /-- `find_hash_section()` : index of the first section linked to section `idx` that has a hash type
-    (`hash_section_index`; 0 also means "none") -/
-def findHash (o : Obj) (idx : Nat) : Nat := findHashGo idx (o.secs.length % 65536) o.secs 0
+    (`hash_section_index`; 0 also means "none"); `sections.size()` and `get_index()` are `Elf_Half` -/
+def findHash (o : Obj) (idx : Nat) : Nat :=
+  findHashGo (BitVec.ofNat 16 idx) (tq_findhash_nsec (BitVec.ofNat 16 o.secs.length)) o.secs 0
 
 /-- `symbol_section_accessor( elf, sections[i] )` : the symbol section, `sections[(Elf_Half)sh_link]` and
     the hash section, all made resident (a section that occurs twice is settled by its first visit) -/
@@ -482,9 +548,9 @@ def symTabFor (o : Obj) (i : Nat) : Option (Obj × SymTab) :=
   match settle o i with
   | none => none
   | some (o1, b) =>
-    let r2 := settleOpt o1 (b.link.setWidth 16).toNat
+    let r2 := settleOpt o1 (tq_sym_strtab_index b.link).toNat
     let hi := findHash r2.1 b.index
-    let r3 := if hi == 0 then (r2.1, none) else settleOpt r2.1 hi
+    let r3 := if tq_sym_has_hash (BitVec.ofNat 16 hi) then settleOpt r2.1 hi else (r2.1, none)
     some (r3.1, { cfg := ⟨o.cls, o.enc⟩, sym := b, str := r2.2, hash := r3.2 })
 
 /-- the scan over `sections[j], j < nSecNo` that collects the callback's relocation sections -/
